@@ -26,10 +26,12 @@ RULE = ("~75 scalable families f(k): k-fold repetition of each declaration/state
         "sizes; 30 adversarial literal families for the lexer's regular expressions. k = 8..256 (quick) / 8..1024 "
         "(thorough). Violation: two consecutive doublings with step ratio > 2.6 (sizes with >= 3000 steps), a step "
         "budget of 400 steps per input character exceeded, or for lexer families an input of <= 8000 characters "
-        "taking > 2 s CPU. Non-trivial: every (family, k) measurement; distinct by construction.")
+        "taking > 10 s user CPU when run alone (min of 3; today's worst: 0.18 s), 65536 characters taking > 40 s (today's worst: 1.5 s), or a "
+        "lexer shard that hangs and whose marked case burns > 45 s CPU alone. Non-trivial: every (family, k) measurement; distinct by construction.")
 ASSUMPTIONS = ["PY_START counts are deterministic for a given input", "RecursionError on deep nests is tolerated as the property says "
                "(workers run with recursion limit 20000 and a 512 MB stack)",
-               "CPU-time thresholds for regex families have >= 40x margin over today's worst case (46 ms at 8000 characters)"]
+               "CPU-time thresholds for regex families have >= 25x margin over today's worst case and are confirmed alone in fresh interpreters "
+               "(a loaded machine inflates measured CPU time by up to 25x in this sandbox)"]
 SHARD_TIMEOUT = {"quick": 240, "thorough": 900}
 RATIO = 2.6
 
@@ -208,7 +210,7 @@ def plan(tier, seed):
     specs.append({"name": "files", "mode": "files", "maxchars": 60000 if tier == "quick" else 300000})
     lex = sorted(LEX_FAMILIES)
     for i in range(4):
-        specs.append({"name": f"lex-{i}", "mode": "lex", "families": lex[i::4], "timeout_s": 400})
+        specs.append({"name": f"lex-{i}", "mode": "lex", "families": lex[i::4], "timeout_s": 900})
     return specs
 
 
@@ -347,9 +349,9 @@ def run_shard(spec):
     else:
         for name in spec["families"]:
             fam = LEX_FAMILIES[name]
-            n = 16
             row = []
-            while n <= 8192:
+            # sizes 16..8192 (no short input may take seconds) and one large size (a quadratic regex shows there)
+            for n in [16, 32, 64, 128, 256, 512, 1024, 2048, 4096, 8192, 65536]:
                 text = fam(n)
                 mark({"lex_family": name, "n": n})
                 t = lex_time(text)
@@ -357,18 +359,18 @@ def run_shard(spec):
                 cnt["measurements"] += 1
                 res["evaluations"] += 1
                 res["nontrivial_distinct"] += 1
-                if t > 2.0:
-                    # confirm: the minimum of three measurements, then a run alone in a fresh process, must
-                    # all exceed the threshold (a loaded machine must never turn into a verdict)
-                    t = min(t, lex_time(text), lex_time(text))
-                    if t > 2.0:
-                        t = min(t, _alone_user_cpu({"lex_family": name, "n": n}))
-                if t > 2.0:
-                    res["violations"].append({"kind": "short-input-takes-seconds-in-the-lexer", "sig": name,
-                                              "case": {"lex_family": name, "n": n},
-                                              "detail": {"chars": len(text), "cpu_seconds": round(t, 2), "series_n_chars_ms": row}})
-                    break
-                n *= 2
+                trigger, limit = (5.0, 10.0) if n <= 8192 else (15.0, 40.0)
+                if t > trigger:
+                    # never a verdict from one measurement on a possibly loaded machine: the minimum user-CPU time of
+                    # three runs alone, each in a fresh interpreter, must exceed the (much larger) limit
+                    confirm = min(_alone_user_cpu({"lex_family": name, "n": n}) for _ in range(3))
+                    cnt["confirmations"] = cnt.get("confirmations", 0) + 1
+                    if confirm > limit:
+                        res["violations"].append({"kind": "short-input-takes-seconds-in-the-lexer" if n <= 8192 else "lexer-time-grows-super-linearly",
+                                                  "sig": name, "case": {"lex_family": name, "n": n},
+                                                  "detail": {"chars": len(text), "user_cpu_seconds_alone_min_of_3": round(confirm, 2),
+                                                             "limit_seconds": limit, "series_n_chars_ms": row}})
+                        break
             cnt["families"] += 1
             cnt["table"][name] = row[-3:]
         res["samples"].append({"lex_family": spec["families"][0], "text_at_n32": LEX_FAMILIES[spec["families"][0]](32)})
@@ -409,10 +411,10 @@ def on_shard_failure(spec, note):
         m = json.loads(note["marker"])
     except Exception:  # noqa: BLE001
         return None
-    cpu = _alone_user_cpu(m, wall_timeout=120)
+    cpu = _alone_user_cpu(m, wall_timeout=240)
     timed_out = False
     res = {"evaluations": 1, "nontrivial_distinct": 1, "violations": [], "samples": [], "counters": {"measurements": 1}, "inconclusive": []}
-    if cpu > 10.0:  # decided on the child's user CPU time only; a wall-clock timeout alone is inconclusive
+    if cpu > 45.0:  # decided on the child's user CPU time only (quiet worst case: 1.5 s); a wall-clock timeout alone is inconclusive
         size = m.get("n") or m.get("k")
         res["violations"].append({"kind": "short-input-takes-seconds" + ("-in-the-lexer" if "lex_family" in m else ""),
                                   "sig": str(m.get("lex_family") or m.get("family")), "case": m,
